@@ -14,10 +14,24 @@ func init() {
 			if tier == "thorough" {
 				k = 5
 			}
-			return []gosym.RunConfig{{
+			rs := []gosym.RunConfig{{
 				Name: fmt.Sprintf("bmc-k%d", k), Entry: "VerifBufBMC", Unwind: 10,
 				Params: map[string]int64{"k": int64(k)}, AssertPrefix: prefix,
 			}}
+			maxK := int64(1)
+			if tier == "thorough" {
+				maxK = 2
+			}
+			for K := int64(0); K <= maxK; K++ {
+				for op := int64(0); op <= 1; op++ {
+					if op == 1 && K == 0 {
+						continue
+					}
+					rs = append(rs, gosym.RunConfig{Name: fmt.Sprintf("ind-K%d-op%d", K, op), Entry: "VerifBufIND", Unwind: 10,
+						Params: map[string]int64{"K": K, "op": op}, AssertPrefix: prefix, NoValidate: true})
+				}
+			}
+			return rs
 		}
 	}
 	bounds := func(tier string) []string {
